@@ -366,9 +366,12 @@ def r6_borrowers_are_cut_before_a_slot_goes_back(ctx):
     overwritten or its scope ends, so every value that leaves a variable's scope or is stored must have been cut loose from the
     slot first - promote / detach copy *every* string that borrows a pool slot (all sizes up to the largest class, strings
     nested in arrays at any depth), and no frame reset comes between a value and its copy.  Shared with C02-R4 / C02-R5."""
-    from .c02 import r4_resets, r5_promotion_complete
+    from .c02 import r4_resets, r5_promotion_complete, r6_nothing_borrowed_is_held_across_recycling
     r4_resets(ctx)
     r5_promotion_complete(ctx)
+    # ... and while an expression is being evaluated: a value that borrows a slot is not kept across a call that can return
+    # that slot (C02-R6), or the slot is handed to another string while the kept value still reads it
+    r6_nothing_borrowed_is_held_across_recycling(ctx)
 
 
 def r7_fallback_memory_is_never_recycled(ctx):
